@@ -566,6 +566,39 @@ fn c12_merkle_keccak() {
 }
 
 // C18 / C17: proof decoders never panic or over-allocate on corrupted bytes; encodings round-trip
+// C03, compressed form: "removing, truncating or duplicating any component makes verification fail" - surplus components of the compressed proof
+// (a trailing sibling that decompression never reads, a surplus per-layer map, a map entry under a position that is not queried, openings that the
+// circuit does not have)
+#[test]
+fn c03_compressed_surplus() {
+    let mut bad = Vec::new();
+    let mut cases = 0usize;
+    for (tag, cfg, n) in [("small", cfg_small(), 20usize), ("standard", CircuitConfig::standard_recursion_config(), 100)] {
+        let (data, proof) = circuit::<PC>(cfg, n, 31 + seed(), false);
+        let comp = match data.compress(proof) { Ok(c) => c, Err(_) => { bad.push(format!("{tag}: compress failed")); continue; } };
+        cases += 1;
+        if data.verify_compressed(comp.clone()).is_err() { bad.push(format!("{tag}: honest compressed proof rejected")); continue; }
+        let co = |q: crate::plonk::proof::CompressedProofWithPublicInputs<F, PC, D>| match catch_unwind(AssertUnwindSafe(|| data.verify_compressed(q))) { Ok(Err(_)) => "rejected", Ok(Ok(())) => "ACCEPTED", Err(_) => "PANICKED" };
+        let keys: Vec<usize> = { let mut k: Vec<usize> = comp.proof.opening_proof.query_round_proofs.initial_trees_proofs.keys().copied().collect(); k.sort(); k };
+        let k0 = keys[0];
+        let mut muts: Vec<(&str, Box<dyn Fn(&mut crate::plonk::proof::CompressedProofWithPublicInputs<F, PC, D>)>)> = Vec::new();
+        muts.push(("last sibling of a compressed initial Merkle path duplicated", Box::new(move |q| { let s = &mut q.proof.opening_proof.query_round_proofs.initial_trees_proofs.get_mut(&k0).unwrap().evals_proofs[1].1.siblings; if let Some(&l) = s.last() { s.push(l); } else { s.push(Default::default()); } })));
+        muts.push(("last per-layer step map duplicated", Box::new(|q| { let st = &mut q.proof.opening_proof.query_round_proofs.steps; if let Some(l) = st.last().cloned() { st.push(l); } })));
+        muts.push(("initial-tree entry added under a position that is not queried", Box::new(move |q| { let m = &mut q.proof.opening_proof.query_round_proofs.initial_trees_proofs; let v = m[&k0].clone(); let mut u = 0usize; while m.contains_key(&u) { u += 1; } m.insert(u, v); })));
+        muts.push(("step entry added under a coset that is not visited", Box::new(|q| { if let Some(m) = q.proof.opening_proof.query_round_proofs.steps.first_mut() { if let Some(v) = m.values().next().cloned() { let mut u = 0usize; while m.contains_key(&u) { u += 1; } m.insert(u, v); } } })));
+        muts.push(("surplus opening in lookup_zs_next of a circuit without lookups", Box::new(|q| q.proof.openings.lookup_zs_next.push(FE::ONE))));
+        muts.push(("surplus opening in lookup_zs of a circuit without lookups", Box::new(|q| q.proof.openings.lookup_zs.push(FE::ONE))));
+        for (what, m) in &muts {
+            let mut q = comp.clone(); m(&mut q);
+            if q == comp { continue; }
+            cases += 1;
+            let o = co(q);
+            if o == "ACCEPTED" { bad.push(format!("{tag}: compressed proof with {what} -> ACCEPTED")); }
+        }
+    }
+    finish("c03_compressed_surplus", cases, bad);
+}
+
 #[test]
 fn c18_c17_decoders() {
     log::set_max_level(log::LevelFilter::Trace);   // log statements are part of the code under test: their arguments are evaluated at this level
